@@ -201,9 +201,9 @@ def gen_tl(rs, names: List[str], n: Optional[int] = None, must: Optional[List[st
         return {"TL": []}
     n = rs.choice([0, 1, 1, 2, 2, 3, 4]) if n is None else n
     terms = [gen_term(rs, names, must) for _ in range(n)]
-    if shapes and terms and rs.random() < 0.35:
+    if shapes and terms and rs.random() < 0.45:
         # adversarial shapes: duplicates, parallel rows, opposite rows, boxes
-        kind = rs.choice(["dup", "parallel", "opposite", "box", "scaled"])
+        kind = rs.choice(["dup", "parallel", "opposite", "box", "scaled", "difference", "difference", "difference"])
         t = rs.choice(terms)
         cf = {k: float.fromhex(v[1]) for k, v in t["T"]}
         c0 = float.fromhex(t["c"][1])
@@ -215,6 +215,16 @@ def gen_tl(rs, names: List[str], n: Optional[int] = None, must: Optional[List[st
             terms.append(lit_term({k: -v for k, v in cf.items()}, rs.choice([c0, -c0, 0.0, 3.0])))
         elif kind == "scaled":
             terms.append(lit_term({k: 2.0 * v for k, v in cf.items()}, 2.0 * c0))
+        elif kind == "difference":
+            # a*p - a*q (+ b*r) <= c: renaming p onto q (or eliminating with p = q) cancels the coefficients
+            if len(names) >= 2:
+                p_, q_ = rs.sample(names, 2)
+                a_ = float(rs.choice([1, 1, 2, 0.5, 3]))
+                d = {p_: a_, q_: -a_}
+                if len(names) >= 3 and rs.random() < 0.4:
+                    r_ = rs.choice([n_ for n_ in names if n_ not in (p_, q_)])
+                    d[r_] = float(rs.choice(COEFFS))
+                terms.append(lit_term(d, float(rs.choice(CONSTS))))
         else:
             nm = rs.choice(names)
             hi = float(rs.choice([1, 2, 5, 10]))
@@ -328,16 +338,17 @@ def machine_dict_of(c: Dict) -> Dict:
     return {"input_vars": list(ins), "output_vars": list(outs), "assumptions": [clause(t) for t in a["TL"]], "guarantees": [clause(t) for t in g["TL"]]}
 
 
-TACTIC_ORDERS = [None, None, [1, 2, 3, 4, 5], [5, 4, 3, 2, 1], [1], [2], [3], [4], [5], [5, 1], [2, 4], [6], [], [4, 5, 1], [3, 1, 2]]
+TACTIC_ORDERS = [None, None, None, [1, 2, 3, 4, 5], [5, 4, 3, 2, 1], [1], [2], [3], [3], [4], [5], [5, 1], [2, 4], [6], [], [4, 5, 1], [3, 1, 2], [3, 4]]
 
 
 # ------------------------------------------------------------------------------ seeded step generator
 class View:
     """What the generator may look at: interfaces and variable mentions of the current pool (canonical)."""
 
-    def __init__(self, pool_canon: Dict[str, Dict], files: Dict[str, str]):
+    def __init__(self, pool_canon: Dict[str, Dict], files: Dict[str, str], recent: Optional[Dict[str, str]] = None):
         self.pool = pool_canon
         self.files = files
+        self.recent = recent or {}  # kind -> slot that received the latest result
 
     def ins(self, s: str) -> List[str]:
         return list(self.pool[s]["C"][0])
@@ -353,8 +364,36 @@ class View:
                     out.append(k)
         return out
 
+    def degenerate(self) -> Optional[str]:
+        """A slot that just received a term with a zero coefficient or with no variable at all."""
+        for kind in ("C", "L"):
+            slot = self.recent.get(kind)
+            if not slot:
+                continue
+            c = self.pool[slot]
+            tls = c["C"][2:4] if "C" in c else [c]
+            for tl in tls:
+                for t in tl["TL"]:
+                    if not t["T"] or any(isinstance(v, list) and v[1] in ("0x0.0p+0", "-0x0.0p+0") for _k, v in t["T"]):
+                        return slot
+        return None
+
     def cvars(self, s: str) -> List[str]:
         return self.ins(s) + [o for o in self.outs(s) if o not in self.ins(s)]
+
+
+def cancelling_pairs(tls: List[Dict]) -> List[Tuple[str, str]]:
+    """(p, q) such that some term has coefficient(p) == -coefficient(q): renaming p onto q cancels them."""
+    out: List[Tuple[str, str]] = []
+    for tl in tls:
+        for t in tl["TL"]:
+            cf = [(k, float.fromhex(v[1])) for k, v in t["T"] if isinstance(v, list) and v[0].startswith("float")]
+            for i, (k1, v1) in enumerate(cf):
+                for k2, v2 in cf[i + 1:]:
+                    if v1 == -v2 and v1 != 0 and (k1, k2) not in out:
+                        out.append((k1, k2))
+                        out.append((k2, k1))
+    return out
 
 
 def _subset(rs, items: List[str], p: float) -> List[str]:
@@ -368,10 +407,32 @@ def _lit(x: Any) -> Dict:
 def gen_step(rs, view: View, allowed_ops: List[str], weights: Optional[Dict[str, float]] = None) -> Dict:  # noqa: WPS231, WPS212
     w = [((weights or {}).get(o, 1.0)) for o in allowed_ops]
     name = rs.choices(allowed_ops, w)[0]
+    deg = view.degenerate()
+    force_plain = False
+    if deg is not None and rs.random() < 0.6:
+        # a degenerate shape was just created: eliminate / compare / compose on it before it is overwritten
+        cand = ["quotient", "quotient_tactics", "compose", "compose_tactics", "c_simplify", "copy", "refines"] if deg.startswith("C") else ["elim_refine", "elim_relax", "tl_simplify", "tl_refines", "is_empty", "to_str_list"]
+        cand = [o for o in cand if o in allowed_ops]
+        if cand:
+            name = rs.choice(cand)
+            force_plain = rs.random() < 0.7
     cs = ["C%d" % i for i in range(NC)]
     ls = ["L%d" % i for i in range(NL)]
     ci, cj = rs.choice(cs), rs.choice(cs)
     li, lj = rs.choice(ls), rs.choice(ls)
+    # bias towards the freshest results: faults and odd shapes matter most right after they were created
+    rc, rl = view.recent.get("C"), view.recent.get("L")
+    if rc and rs.random() < 0.45:
+        ci = rc
+    if rl and rs.random() < 0.45:
+        li = rl
+    p_recent = 0.4
+    if deg is not None:
+        p_recent = 0.9
+        if deg.startswith("C"):
+            ci = rc = deg
+        else:
+            li = rl = deg
     step: Dict[str, Any] = {"op": name, "args": {}, "dst": None}
     A = step["args"]
     dstC = rs.choice(cs)
@@ -380,6 +441,8 @@ def gen_step(rs, view: View, allowed_ops: List[str], weights: Optional[Dict[str,
     def pick_composable() -> Tuple[str, str]:
         for _ in range(8):
             a, b = rs.choice(cs), rs.choice(cs)
+            if rc and rs.random() < p_recent:
+                a = rc
             if a != b and not set(view.outs(a)) & set(view.outs(b)):
                 # prefer pairs that are actually wired
                 if set(view.outs(a)) & set(view.ins(b)) or set(view.outs(b)) & set(view.ins(a)) or rs.random() < 0.3:
@@ -403,6 +466,8 @@ def gen_step(rs, view: View, allowed_ops: List[str], weights: Optional[Dict[str,
         a, b = ci, cj
         for _ in range(8):
             a, b = rs.choice(cs), rs.choice(cs)
+            if rc and rs.random() < p_recent:
+                a = rc
             ok = not (set(view.outs(a)) - set(view.outs(b))) & set(view.ins(b))
             shares = set(view.cvars(a)) & set(view.cvars(b))
             if ok and shares and a != b:
@@ -445,23 +510,31 @@ def gen_step(rs, view: View, allowed_ops: List[str], weights: Optional[Dict[str,
     elif name == "rename_variable":
         vs = view.cvars(ci)
         src = rs.choice(vs) if (vs and rs.random() < 0.9) else rs.choice(NAMES)
-        tgt = rs.choice(NAMES + EXTRA_NAMES)
+        # half of the time merge two variables of the same contract (coefficients may cancel)
+        tgt = rs.choice(vs) if (len(vs) > 1 and rs.random() < 0.5) else rs.choice(NAMES + EXTRA_NAMES)
+        pairs = cancelling_pairs(view.pool[ci]["C"][2:4])
+        if pairs and rs.random() < 0.6:
+            src, tgt = rs.choice(pairs)  # zero coefficients that cancel
         A["self"] = {"slot": ci}
         A["src"] = _lit(Var(src))
         A["tgt"] = _lit(Var(tgt))
         step["dst"] = dstC
     elif name == "rename_variables":
         vs = view.cvars(ci) or NAMES
-        maps = [(rs.choice(vs), rs.choice(NAMES + EXTRA_NAMES)) for _ in range(rs.choice([0, 1, 1, 2, 3]))]
+        maps = [(rs.choice(vs), rs.choice(vs) if rs.random() < 0.4 else rs.choice(NAMES + EXTRA_NAMES)) for _ in range(rs.choice([0, 1, 1, 2, 3]))]
         A["self"] = {"slot": ci}
         A["mappings"] = _lit(maps)
         step["dst"] = dstC
     elif name == "tl_rename_variable":
         vs = view.tl_vars(view.pool[li])
         src = rs.choice(vs) if (vs and rs.random() < 0.9) else rs.choice(NAMES)
+        tgt = rs.choice(vs) if (len(vs) > 1 and rs.random() < 0.5) else rs.choice(NAMES + EXTRA_NAMES)
+        pairs = cancelling_pairs([view.pool[li]])
+        if pairs and rs.random() < 0.6:
+            src, tgt = rs.choice(pairs)
         A["self"] = {"slot": li}
         A["src"] = _lit(Var(src))
-        A["tgt"] = _lit(Var(rs.choice(NAMES + EXTRA_NAMES)))
+        A["tgt"] = _lit(Var(tgt))
         step["dst"] = dstL
     elif name in ("copy", "to_machine_dict", "to_dict", "c_str", "c_hash"):
         A["self"] = {"slot": ci}
@@ -607,4 +680,6 @@ def gen_step(rs, view: View, allowed_ops: List[str], weights: Optional[Dict[str,
         A["machine"] = _lit(True)
     else:
         raise HarnessError("generator does not know op %s" % name)
+    if force_plain and "simplify" in A:
+        A["simplify"] = _lit(False)
     return step
